@@ -27,7 +27,7 @@ func repoRoot() string {
 }
 
 // testSources extracts, at run time, every TypeShell source that the
-// repository's shared test bodies (tests/*.go, not *_test.go) pass as a plain
+// repository's shared test bodies (tests/*.go without the per-OS wrappers) pass as a plain
 // string literal: either directly as the source argument of the transpiler
 // callback, or as the literal returned by a source callout `func(dir string)
 // (string, error) { return `...`, nil }`. Computed sources are left out.
@@ -41,7 +41,8 @@ func testSources() ([]prog, error) {
 	var out []prog
 	fset := token.NewFileSet()
 	for _, f := range files {
-		if strings.HasSuffix(f, "_test.go") || filepath.Base(f) == "helpers.go" {
+		// shared bodies only: the *_linux_test.go / *_windows_test.go files are thin wrappers
+		if strings.HasSuffix(f, "_linux_test.go") || strings.HasSuffix(f, "_windows_test.go") || filepath.Base(f) == "helpers.go" {
 			continue
 		}
 		af, err := parser.ParseFile(fset, f, nil, 0)
